@@ -29,6 +29,9 @@ type space struct {
 	syms        []symbol
 	symLabel    string
 	rootSugared bool
+	// needSep: of the sequences over syms only those that use at least one of the
+	// separator-carrying names are run (the others belong to the spaces without those names)
+	needSep bool
 }
 
 func (s space) size() int64 {
@@ -43,6 +46,9 @@ func (s space) String() string {
 	r := "plain"
 	if s.rootSugared {
 		r = "sugared"
+	}
+	if s.needSep {
+		return fmt.Sprintf("depth=%d x %d symbols (%s) x %s root: those of the %d sequences that contain >=1 name with a '.'", s.depth, len(s.syms), s.symLabel, r, s.size())
 	}
 	return fmt.Sprintf("depth=%d x %d symbols (%s) x %s root: %d programs", s.depth, len(s.syms), s.symLabel, r, s.size())
 }
@@ -293,15 +299,26 @@ func main() {
 	var spaces []space
 	for _, sug := range []bool{false, true} {
 		for d := 0; d <= 3; d++ {
-			spaces = append(spaces, space{d, fullSyms, "full", sug})
+			spaces = append(spaces, space{d, fullSyms, "full", sug, false})
+		}
+	}
+	// names with the separator at the start / end / alone / inside: depth 1..3 (thorough: ..4), both roots
+	nameSyms := append(pick("Named(a)", "Named()", "With1", "Toggle"), sepNameSyms...)
+	nameDepth := 3
+	if run.Thorough() {
+		nameDepth = 4
+	}
+	for _, sug := range []bool{false, true} {
+		for d := 1; d <= nameDepth; d++ {
+			spaces = append(spaces, space{d, nameSyms, "names: " + symList(nameSyms), sug, true})
 		}
 	}
 	if !run.Thorough() {
-		spaces = append(spaces, space{4, reduced8, "reduced-8: " + symList(reduced8), false})
+		spaces = append(spaces, space{4, reduced8, "reduced-8: " + symList(reduced8), false, false})
 	} else {
-		spaces = append(spaces, space{4, reduced10, "reduced-10: " + symList(reduced10), false})
-		spaces = append(spaces, space{4, reduced10, "reduced-10: " + symList(reduced10), true})
-		spaces = append(spaces, space{5, reduced6, "reduced-6: " + symList(reduced6), false})
+		spaces = append(spaces, space{4, reduced10, "reduced-10: " + symList(reduced10), false, false})
+		spaces = append(spaces, space{4, reduced10, "reduced-10: " + symList(reduced10), true, false})
+		spaces = append(spaces, space{5, reduced6, "reduced-6: " + symList(reduced6), false, false})
 	}
 
 	// the two dynamic-level families run on the depth<=4 spaces in the thorough tier, on the depth<=3 spaces in the quick tier
@@ -340,6 +357,15 @@ func main() {
 		var sample any
 		for idx := it.lo; idx < it.hi; idx++ {
 			steps := sp.program(idx)
+			if sp.needSep {
+				has := false
+				for _, st := range steps {
+					has = has || isSepName(st.sym)
+				}
+				if !has {
+					continue
+				}
+			}
 			nprog++
 			// reference node states of this program: (root kind, symbols along the path)
 			sigs := make([]string, len(steps)+1)
@@ -409,7 +435,7 @@ func main() {
 	}
 	run.Assume = []string{
 		"dynamic-level families: one AtomicLevel under the json core / under both tee branches is set to FatalLevel+1 (nothing enabled) immediately before every derive event and to Debug immediately before every log event; the oracle is exactly that of the json / tee(json,observer) family",
-		"field arguments: With1 = one Int64; With3 = Int64,String,Int64; WithNS = Namespace + Int64; WithMut = Object(mutable marshaler) + Int64; keys are unique per step; names from {\"\",\"a\",\"b\"}; sugared With/WithLazy receive key/value pairs (the namespace as a typed Field)",
+		"field arguments: With1 = one Int64; With3 = Int64,String,Int64; WithNS = Namespace + Int64; WithMut = Object(mutable marshaler) + Int64; keys are unique per step; names from {\"\",\"a\",\"b\"} plus, in the 'names' spaces, {\".a\",\"a.\",\".\",\"a.b\"}; sugared With/WithLazy receive key/value pairs (the namespace as a typed Field)",
 		"every entry is logged at Info (enabled in every family); the sampler's budget (first=2^30 per tick) is never exhausted",
 		"evaluation time/count of marshalers is demanded only where every serialising core is a byte encoder (json, console, sampler, hooked, increase-level, lazy): With = once, at derivation; WithLazy = once, at the first log through the logger or a descendant or the first With/WithOptions(Fields) chained on it. The observer keeps the Field unevaluated: there only field identity (Field.Equals + same marshaler pointer) is compared; in tee(json,observer) the JSON branch's value is compared but not the call count",
 		"Named, Sugar, Desugar and WithLazy on a lazy logger are not a 'use' (documented: evaluated only if chained with With or written to)",
